@@ -667,6 +667,13 @@ def variant():
     pm = {(p.primitive, W.repo_tt(p.type)): p for p in ho.list_primitives}
     t = (("P", "map", _tt(arrow(arrow("int", "int"), "int", "int"))), [(("P", "succ", _tt(arrow("int", "int"))), []), (("P", "1", "int"), [])])
     _VARIANT["actual"] = to_repo(t, pm) in g
+    sib = DSL({"f": W.tt_repo(arrow("a", "b", "c")), "g": W.tt_repo(arrow("a", "d", "c")), "h": W.tt_repo(arrow("x", "a")),
+               "x0": W.tt_repo("x"), "y": W.tt_repo("b"), "z": W.tt_repo("d")})
+    gs = TTCFG.size_constraint(sib, W.tt_repo("c"), 4)
+    ps = {(p.primitive, W.repo_tt(p.type)): p for p in sib.list_primitives}
+    _VARIANT["stack_key"] = all(to_repo(t, ps) in gs for t in (
+        (("P", "f", _tt(arrow("a", "b", "c"))), [(("P", "h", _tt(arrow("x", "a"))), [(("P", "x0", "x"), [])]), (("P", "y", "b"), [])]),
+        (("P", "g", _tt(arrow("a", "d", "c"))), [(("P", "h", _tt(arrow("x", "a"))), [(("P", "x0", "x"), [])]), (("P", "z", "d"), [])])))
     e = DSL({"f": W.tt_repo(arrow("a", "c")), "x": W.tt_repo("b")})
     _VARIANT["empty_zero"] = TTCFG.size_constraint(e, W.tt_repo("c"), 3).programs() == 0
     d2 = DSL({"+": W.tt_repo(arrow("int", "int", "int")), "1": W.tt_repo("int")})
@@ -813,21 +820,33 @@ def check_single(case, M, rng):
     dw = dsl_wire(dsl, forb)
     # ---- model (table, programs, type request) and the hypotheses evaluated on the model
     if kind == "size":
-        mans = M.ask([Sym("c13.size"), dw, W.ty_wire(tr), spec["max_size"], ng, var["actual"], FUEL])
+        mans = M.ask([Sym("c13.size"), dw, W.ty_wire(tr), spec["max_size"], ng, var["actual"], var["stack_key"], FUEL])
         state_w = lambda st: [st[0], st[1]]
     else:
-        mans = M.ask([Sym("c13.atmost"), dw, W.ty_wire(tr), spec["name"], spec["k"], ng, FUEL])
+        mans = M.ask([Sym("c13.atmost"), dw, W.ty_wire(tr), spec["name"], spec["k"], ng, var["stack_key"], FUEL])
         state_w = lambda st: st
     first_order = mans[2] == "1"
     heads = [("P", n, t) for n, t in prims] + [("V", i, a) for i, a in enumerate(args)]
     neigh = neighbours(rng, members, outside, heads, 120) + outside[:150]
     cand = members[:500] + neigh
     gw = struct_wire(g, state_w)
-    if kind == "size":
-        cans = M.ask([Sym("c13.checksize"), dw, W.ty_wire(tr), spec["max_size"], ng, var["actual"], gw, [term_wire(t) for t in cand], FUEL])
-    else:
-        cans = M.ask([Sym("c13.checkatmost"), dw, W.ty_wire(tr), spec["name"], spec["k"], ng, gw, [term_wire(t) for t in cand], FUEL])
-    sub_ok, closed_ok, ndead, mprog_impl, bits = cans[0] == "1", cans[1] == "1", int(cans[2]), cans[3], cans[4]
+    outside_model = None
+    try:
+        if kind == "size":
+            cans = M.ask([Sym("c13.checksize"), dw, W.ty_wire(tr), spec["max_size"], ng, var["actual"], gw, [term_wire(t) for t in cand], FUEL])
+        else:
+            cans = M.ask([Sym("c13.checkatmost"), dw, W.ty_wire(tr), spec["name"], spec["k"], ng, gw, [term_wire(t) for t in cand], FUEL])
+    except RuntimeError as e:
+        if "rejected" not in str(e):
+            raise
+        # the implementation's table is outside the model's domain (e.g. a negative state): the
+        # model-side observables are skipped, the oracle below still decides
+        outside_model = str(e)[:200]
+        cans = M.ask([Sym("c13.checksize" if kind == "size" else "c13.checkatmost")] + (
+            [dw, W.ty_wire(tr), spec["max_size"], ng, var["actual"]] if kind == "size" else [dw, W.ty_wire(tr), spec["name"], spec["k"], ng]) + [
+            [Sym("tt"), gw[1] if kind == "size" else [gw[1][0], gw[1][1], max(0, spec["k"])], []], [term_wire(t) for t in cand], FUEL])
+    sub_ok, closed_ok, ndead, bits = cans[0] == "1", cans[1] == "1", int(cans[2]), cans[5]
+    mprog_impl = cans[4] if var["empty_zero"] else cans[3]
     # hypotheses on the MODEL's own table for this input
     hyp = {"sub": None, "closed": None, "start": None}
     model_tbl = None
@@ -878,7 +897,7 @@ def check_single(case, M, rng):
             raise RuntimeError(f"Lean size/occurrence count differs on {term_str(t)}")
         if b[0] != b[1]:
             raise RuntimeError("containsRec and the stack-free run disagree (contradicts theorem C13_contains_run)")
-        if sub_ok and b[1] != b[2]:
+        if outside_model is None and sub_ok and b[1] != b[2]:
             raise RuntimeError("table accepted by subOK but its language differs from the rule-creation language (contradicts C13_certified)")
         if (first_order or var["actual"] or kind == "atmost") and b[2] != b[4]:
             raise RuntimeError(f"language of the rule-creation step differs from the specification on {term_str(t)} (contradicts C13_size/C13_atmost)")
@@ -892,7 +911,7 @@ def check_single(case, M, rng):
     cand_repo = [to_repo(t, prim_objs) for t in cand]
     for t, tr_, b in zip(cand, cand_repo, bits):
         got = tr_ in g
-        if (b[0] == "1") != got:
+        if outside_model is None and (b[0] == "1") != got:
             fail("corr", "membership differs from the model's containsRec on the same table", f"{tr_}: impl={got} model={b[0]}")
         want = term_str(t) in mset
         if want and not got:
@@ -912,25 +931,33 @@ def check_single(case, M, rng):
     if nprog is not None:
         if nprog != len(members):
             fail("oracle", "programs() is not the size of the language", f"{nprog} reported, {len(members)} programs in the language")
-        if str(mprog_impl) != str(nprog) and not (var["empty_zero"] and g.start not in g.rules):
+        if outside_model is None and str(mprog_impl) != str(nprog):
             fail("corr", "programs() differs from the model's programs on the same table", f"{nprog} vs {mprog_impl}")
     # ---- 4. every derivation that can be started can be completed
     stuck, empty, complete = stuck_configs(g)
     if stuck or empty:
         fail("oracle", "a derivation that can be started cannot be completed",
              f"after {stuck[0][0]} -> {stuck[0][1]} the non-terminal {stuck[0][2]} does not exist" if stuck else f"non-terminal without rules: {empty[0]}")
-    if complete and not stuck and not empty and g.start in g.rules and not closed_ok:
+    if outside_model is not None:
+        fail("corr", "implementation's rule table is outside the model's domain", outside_model)
+    if outside_model is None and complete and not stuck and not empty and g.start in g.rules and not closed_ok:
         fail("corr", "implementation's table fails the verified checker closedOK although no derivation is stuck", "")
-    if (stuck or empty) and closed_ok:
+    if outside_model is None and (stuck or empty) and closed_ok:
         raise RuntimeError("closedOK accepted a table with a stuck derivation (contradicts C13_clean)")
     # ---- 5. verified language checker on the actual table
-    if not sub_ok:
+    if outside_model is None and not sub_ok:
         fail("corr", "implementation's table fails the verified checker subOK (language of the table is not the language of the rule creation)", f"dead={ndead}")
     # ---- 6. structure: model's table
     if mans[0][0] == "ok":
         a, b = canon_table(reachable_part(gw)), canon_table(reachable_part(model_tbl))
-        if a != b:
-            fail("corr", "rule table differs from the model's table", f"{len(a)} vs {len(b)} non-terminals; e.g. {sorted(set(a) ^ set(b))[:1]}")
+        if a != b and outside_model is None:
+            # the order in which the work list is explored decides which pending stacks are dropped
+            # (C13-F2) and which unreachable rows clean() leaves: a difference is a violation only
+            # if the verified checkers judge the two tables differently
+            if sub_ok == hyp["sub"] and closed_ok == hyp["closed"]:
+                tags.append("structural-drift(rule table differs from the model's, same verdicts of subOK/closedOK)")
+            else:
+                fail("corr", "rule table differs from the model's table", f"{len(a)} vs {len(b)} non-terminals; e.g. {sorted(set(a) ^ set(b))[:1]}")
         if mans[0][1][2] != _plain(W.ty_wire(g.type_request)):
             fail("corr", "type request differs from the model", "")
     elif mans[0][0] == "fuel":
@@ -1042,7 +1069,11 @@ def check_mul(case, M, rng):
         entries.append([nt_p(S), rs])
     wi = [Sym("tt"), nt_p(g.start), entries]
     ans = M.ask([Sym("c13.mul"), w1, w2, wi, [term_wire(t) for t in cand], FUEL])
-    mres, sub_ok, closed_ok, mprog_impl, bits = ans[0], ans[1] == "1", ans[2] == "1", ans[3], ans[4]
+    mres = ans[1] if var["empty_zero"] else ans[0]
+    sub_ok, closed_ok, typed_ok, bits = ans[3] == "1", ans[4] == "1", ans[6] == "1", ans[7]
+    mprog_impl = ans[2] if var["empty_zero"] else ans[5]
+    if not typed_ok:
+        fail("corr", "a factor's rule table gives a symbol other argument types than its type has at the non-terminal (hypothesis typedOK of C13_product_typed)", "")
     # ---- the property: membership = in both
     cand_repo = [to_repo(t, prim_objs) for t in cand]
     for t, tr_, b in zip(cand, cand_repo, bits):
@@ -1069,15 +1100,17 @@ def check_mul(case, M, rng):
     hyp_closed = None
     if mres[0] == "ok":
         h = M.ask([Sym("c13.mul"), w1, w2, rewire(mres[1][0]), [], FUEL])
-        hyp_closed = h[2] == "1"
+        hyp_closed = h[4] == "1"
     fid = "C13-F5" if hyp_closed is False else None
     if not common and g.start not in g.rules and not var["empty_zero"]:
         fid = "C13-F6"
     nprog = limited(IMPL_LIMIT, g.programs)
     if nprog != len(common):
         fail("oracle", "programs() of the product is not the number of common programs", f"{nprog} vs {len(common)}", fid)
-    if str(mprog_impl) != str(nprog) and not (var["empty_zero"] and g.start not in g.rules):
+    if str(mprog_impl) != str(nprog):
         fail("corr", "programs() differs from the model's programs on the same table", f"{nprog} vs {mprog_impl}")
+    if not var["mul_tr"] and ans[0][0] == "ok" and ans[0][1][2] != _plain(W.ty_wire(g.type_request)):
+        fail("corr", "type request of the product differs from the model's _guess_type_request_", f"{g.type_request}")
     if stuck or empty:
         fail("oracle", "a derivation of the product that can be started cannot be completed",
              f"after {stuck[0][0]} -> {stuck[0][1]}: {stuck[0][2]} missing" if stuck else f"empty row {empty[0]}", fid)
